@@ -136,6 +136,8 @@ pub struct World {
     pub sndbuf_shrunk: bool,
     /// requests already answered (kept so that a surplus response can be produced)
     pub answered: Vec<Outstanding>,
+    /// keep answered requests (and whatever descriptors they carry) alive for `respond_surplus`
+    pub keep_answered: bool,
     pub surplus_responds: usize,
     /// descriptor 0 of the process, parked while the kill switch occupies that number
     pub saved0: Option<RawFd>,
@@ -327,6 +329,7 @@ impl World {
             respond_results: vec![],
             sndbuf_shrunk: false,
             answered: vec![],
+            keep_answered: false,
             surplus_responds: 0,
             next_pad: 0,
             saved0,
@@ -419,6 +422,34 @@ impl World {
         }
         self.bytes_moved += total;
         total
+    }
+
+    /// One `sendmsg` carrying `bytes` and `nfds` descriptors (copies of /dev/null) as SCM_RIGHTS.
+    /// Only with nothing unsent in front of it; false if the socket did not take the whole message.
+    pub fn send_with_fds(&mut self, c: usize, bytes: &[u8], nfds: usize) -> bool {
+        use vmm_sys_util::sock_ctrl_msg::ScmSocket;
+        if self.clients[c].state != CState::Connected || self.clients[c].shut_wr || !self.clients[c].unsent.is_empty() || bytes.is_empty() {
+            return false;
+        }
+        struct Raw(RawFd);
+        impl ScmSocket for Raw {
+            fn socket_fd(&self) -> RawFd {
+                self.0
+            }
+        }
+        let fds = vec![self.devnull; nfds.min(253)];
+        let sock = Raw(self.clients[c].fd);
+        let r = sock.send_with_fds(&[bytes], &fds);
+        let ok = matches!(r, Ok(n) if n == bytes.len());
+        if let Ok(n) = r {
+            self.clients[c].sent.extend_from_slice(&bytes[..n]);
+            self.bytes_moved += n;
+            if n < bytes.len() {
+                self.clients[c].unsent.extend(bytes[n..].iter().copied());
+            }
+        }
+        self.note(format!("sendmsg(c{}, {}B + {} descriptors) -> {}", c, bytes.len(), fds.len(), if ok { "whole" } else { "not whole" }));
+        ok
     }
 
     pub fn send_raw(&mut self, c: usize, bytes: &[u8]) {
@@ -701,10 +732,12 @@ impl World {
         }
         self.respond_results.push((o.c, o.j, ok));
         self.note(format!("respond(c{}r{}, {} {}B) -> {}", o.c, o.j, code, size, if ok { "Ok" } else { "Err" }));
-        if self.answered.len() >= 8 {
-            self.answered.remove(0);
+        if self.keep_answered {
+            if self.answered.len() >= 8 {
+                self.answered.remove(0);
+            }
+            self.answered.push(o);
         }
-        self.answered.push(o);
         ok
     }
 
